@@ -9,7 +9,9 @@ open Lean GoNeat.Driver
 
 def verdictJson (i : Nat) (op : String) (v : Verdict) : Json :=
   Json.mkObj [("i", jN i), ("op", jS op), ("corr", jB v.corr), ("spec", jB v.spec), ("nontrivial", jB v.nontrivial),
-              ("tie", jB v.tie), ("cls", jS v.cls), ("sig", jS v.sig), ("detail", jS (v.detail.take 2000).toString)]
+              ("tie", jB v.tie), ("cls", jS v.cls), ("sig", jS v.sig), ("detail", jS (v.detail.take 2000).toString),
+              ("props", Json.mkObj (v.props.map fun (p, ok, why, sg) =>
+                  (p, Json.mkObj [("ok", jB ok), ("why", jS (why.take 1500).toString), ("sig", jS sg)])))]
 
 def handleLine (line : String) : String :=
   match Json.parse line with
